@@ -178,6 +178,201 @@ def driver_shapes(fn_text, pool_pat, closure_pat, seq_loop_pat, unit_callee, uni
     return assemble(closure, what + " worker closure"), assemble(st[lb:le], what + " sequential loop")
 
 
+def leave_kind(text, pos, in_closure, what):
+    """what the `if` around the poll at `pos` does when the answer is true: 'unit' = `return` out of a per-unit closure
+    (the surrounding iteration goes on to the next unit, which polls again), 'loop' = `break` of the unit loop or `return`
+    out of the driver function itself"""
+    reacts(text, pos, what)
+    j = text.index("{", pos)
+    while True:          # the `{` that opens the guarded block: first one outside parentheses
+        seg = text[pos:j]
+        if seg.count("(") <= seg.count(")"):
+            break
+        j = text.index("{", j + 1)
+    m = re.match(r"\{\s*(return|break)\b", text[j:])
+    if not m:
+        raise ExtractError(f"{what}: cannot read the reaction to the poll")
+    if m.group(1) == "break":
+        return "loop"
+    return "unit" if in_closure else "loop"
+
+
+def poll_leave(region, in_closure, what):
+    ms = [m for m in TOK.finditer(region) if m.group("poll")]
+    if len(ms) != 1:
+        raise ExtractError(f"{what}: {len(ms)} abort polls (exactly one expected)")
+    return leave_kind(region, ms[0].start(), in_closure, what)
+
+
+def driver_regions(fn_text, pool_pat, closure_pat, seq_loop_pat, what):
+    """(worker closure text, sequential loop text) as cut by driver_shapes"""
+    t = strip_hooks(fn_text)
+    b, e = block_after(t, pool_pat, what + ": thread-pool branch")
+    mt = t[b:e]
+    m = re.match(r"\s*else\s*\{", t[e:])
+    sb = e + m.end() - 1
+    st = t[sb:_match_brace(t, sb)]
+    cb, ce = block_after(mt, closure_pat, what + ": worker closure")
+    lb, le = block_after(st, seq_loop_pat, what + ": sequential loop")
+    return mt[cb:ce], st[lb:le], t[_match_brace(t, sb):]
+
+
+def cg_adder(source, what):
+    """classgroup.rs: siqs_sieve_poly adds through sieve_block_poly, whose single locked add is followed by the store's own
+    completion test (`if rels.done() { break; }`), and itself stops sieving blocks once the store is complete: the relations
+    of a polynomial that reach the store are a PREFIX of what the polynomial yields, cut by the store (not by a flag)"""
+    f = strip_hooks(find_fn(source, "siqs_sieve_poly"))
+    inner = strip_hooks(find_fn(source, "sieve_block_poly"))
+    for name, t in (("siqs_sieve_poly", f), ("sieve_block_poly", inner)):
+        toks = [m.lastgroup for m in TOK.finditer(t) if m.lastgroup in ("poll", "check", "publish")]
+        if toks:
+            raise ExtractError(f"{what}: {name} performs protocol actions {toks}")
+    if len(re.findall(r"\bsieve_block_poly\s*\(", f)) != 2:
+        raise ExtractError(f"{what}: siqs_sieve_poly no longer calls sieve_block_poly twice (empty interval / block loop)")
+    if len(re.findall(r"if\s+s\s*\.\s*rels\s*\.\s*read\(\)\s*\.\s*unwrap\(\)\s*\.\s*done\(\)\s*\{\s*break\s*;\s*\}", f)) != 1:
+        raise ExtractError(f"{what}: siqs_sieve_poly: the store-complete exit of the block loop is not of the known form")
+    if len(re.findall(r"\brels\s*\.\s*write\s*\(", inner)) != 1 or len(re.findall(r"\brels\s*\.\s*write\s*\(", f)) != 0:
+        raise ExtractError(f"{what}: the add callee does not take the write lock exactly once")
+    if not re.search(r"let\s+mut\s+rels\s*=\s*s\s*\.\s*rels\s*\.\s*write\(\)\s*\.\s*unwrap\(\)\s*;\s*rels\s*\.\s*add\s*\(\s*rel\s*\)\s*;"
+                     r"\s*if\s+rels\s*\.\s*done\(\)\s*\{\s*break\s*;\s*\}", inner):
+        raise ExtractError(f"{what}: sieve_block_poly: locked add followed by the store-complete exit not of the known form")
+
+
+def qsieve_shapes(qs):
+    """classical QS (qsieve.rs::qsieve): ONE coordinating loop over large blocks. A unit = one large block PAIR: the forward and the
+    backward arm (closures do_sieve_fwd / do_sieve_bck: `nblocks` calls of sieve_block each, every call adding its relations under
+    the write lock), run as `rayon::join` with a pool and one after the other without; after the join the coordinator polls the
+    abort predicate (`return vec![]`), then reads the store (`rels.gap`) and leaves the loop when the gap is 0.
+    Returned: (forked?, arms, after) for the pool branch and for the sequential branch."""
+    fn = strip_hooks(find_fn(qs, "qsieve"))
+    lb, le = block_after(fn, r"\bfor large_blk_idx in 1\.\. \{", "qsieve(): loop over large blocks")
+    if tokens(fn[:lb], {}, "qsieve() before the loop") or tokens(fn[le:], {}, "qsieve() after the loop"):
+        raise ExtractError("qsieve(): protocol actions outside the loop over large blocks")
+    loop = fn[lb:le]
+    sb = strip_hooks(find_fn(qs, "sieve_block"))
+    if [m.lastgroup for m in TOK.finditer(sb) if m.lastgroup in ("poll", "check", "publish")]:
+        raise ExtractError("qsieve: sieve_block performs protocol actions")
+    if len(re.findall(r"\brels\s*\.\s*write\s*\(\s*\)\s*\.\s*unwrap\s*\(\s*\)\s*\.\s*add\s*\(", sb)) != 1:
+        raise ExtractError("qsieve: sieve_block does not have exactly one locked add")
+    arms, ends = [], []
+    for name in ("do_sieve_fwd", "do_sieve_bck"):
+        cb, ce = block_after(loop, r"let mut " + name + r" = \|\| \{", f"qsieve(): closure {name}")
+        c = loop[cb:ce]
+        if tokens(c, {}, f"qsieve::{name}"):
+            raise ExtractError(f"qsieve(): closure {name} performs protocol actions of its own")
+        fb, fe = block_after(c, r"\bfor _ in 0\.\.qs\.nblocks\(\) \{", f"qsieve::{name}: loop over blocks")
+        if len(re.findall(r"\bsieve_block\s*\(", c)) != 1 or len(re.findall(r"\bsieve_block\s*\(", c[fb:fe])) != 1:
+            raise ExtractError(f"qsieve::{name}: sieve_block is not called exactly once, inside the loop over blocks")
+        arms.append(["add"])
+        ends.append(ce)
+    rest = loop[max(ends):]
+    m = re.match(r"\s*;\s*if let Some\(pool\) = tpool \{", rest)
+    if not m:
+        raise ExtractError("qsieve(): the fork-join / sequential branch does not follow the two closures")
+    b = m.end() - 1
+    e = _match_brace(rest, b)
+    mt = rest[b:e]
+    m2 = re.match(r"\s*else\s*\{", rest[e:])
+    if not m2:
+        raise ExtractError("qsieve(): no sequential branch")
+    sb2 = e + m2.end() - 1
+    se = _match_brace(rest, sb2)
+    st = rest[sb2:se]
+    if not re.search(r"pool\s*\.\s*install\(\s*\|\|\s*rayon::join\(\s*do_sieve_fwd\s*,\s*do_sieve_bck\s*\)\s*\)\s*;", mt) or \
+            re.search(r"do_sieve_(fwd|bck)\s*\(", mt):
+        raise ExtractError("qsieve(): the pool branch is not `pool.install(|| rayon::join(do_sieve_fwd, do_sieve_bck))`")
+    if not re.match(r"\{\s*do_sieve_fwd\(\)\s*;\s*do_sieve_bck\(\)\s*;", st) or "rayon" in st:
+        raise ExtractError("qsieve(): the sequential branch is not `do_sieve_fwd(); do_sieve_bck();`")
+    if tokens(mt, {}, "qsieve() pool branch") or tokens(st, {}, "qsieve() sequential branch"):
+        raise ExtractError("qsieve(): protocol actions inside the fork-join / sequential branch")
+    after_text = rest[se:]
+    if re.search(r"do_sieve_(fwd|bck)|sieve_block\s*\(", after_text):
+        raise ExtractError("qsieve(): sieving after the join")
+    # after the join: poll (must lead to `return`), then the completion test on the store itself
+    TEST = re.compile(r"(?P<poll>\bprefs\s*\.\s*abort\s*\(\s*\))|(?P<gap>\brels\s*\.\s*gap\s*\()")
+    after = []
+    for m in TEST.finditer(after_text):
+        if m.group("poll"):
+            if leave_kind(after_text, m.start(), False, "qsieve() after the join") != "loop":
+                raise ExtractError("qsieve(): the poll does not leave the loop")
+            if not re.match(r"\{\s*return\s+vec!\[\]\s*;", after_text[after_text.index("{", m.end()):]):
+                raise ExtractError("qsieve(): an abort request does not return the empty divisor list")
+            after.append("poll")
+        else:
+            tail = after_text[m.end():]
+            mm = re.match(r"[^;{}]*;\s*if\s+gap\s*==\s*0\s*\{", tail)
+            if not mm:
+                raise ExtractError("qsieve(): the completion test `if gap == 0` does not follow the read of the gap")
+            blk = tail[mm.end() - 1:_match_brace(tail, mm.end() - 1)]
+            if not re.search(r"\bbreak\s*;\s*\}$", blk):
+                raise ExtractError("qsieve(): a zero gap does not `break` the loop")
+            after += ["publish", "check"]      # decide completion on the store, then act on the decision (same thread)
+    if OTHER_SHARED.search(loop):
+        raise ExtractError("qsieve(): an access to the store that the translator does not know")
+    return (True, arms, after), (False, arms, after)
+
+
+USE = re.compile(r"\bdone\b")
+
+
+def ecm_unit_read(ecm):
+    """ecm.rs::ecm: a unit = one curve (closure do_curve). Entry: `if done.load() || prefs.abort() { return None; }` before any
+    work; every exit that reports a factor is `done.store(true); return <Some>` (the found-factor flag), the other exits return
+    None; the flag `done` is used nowhere else. Returns (entry tokens, exit tokens of a curve that found a factor, uses of `done`)."""
+    efn = strip_hooks(find_fn(ecm, "ecm", params=r"\s*\("))
+    cb, ce = block_after(efn, r"let do_curve = \|seed: u32\| \{", "ecm(): do_curve closure")
+    c = efn[cb:ce]
+    toks = [(m.lastgroup, m.start()) for m in TOK.finditer(c) if m.lastgroup in ("poll", "check", "publish")]
+    kinds = [k for k, _ in toks]
+    if kinds[:2] != ["check", "poll"] or "check" in kinds[2:] or "poll" in kinds[2:]:
+        raise ExtractError(f"ecm::do_curve: protocol actions {kinds} (check, poll first and only once expected)")
+    if not re.search(r"if\s+done\s*\.\s*load\([^)]*\)\s*\|\|\s*prefs\s*\.\s*abort\(\)\s*\{\s*return\s+None\s*;\s*\}", c):
+        raise ExtractError("ecm::do_curve: entry test is not `if done.load(..) || prefs.abort() { return None; }`")
+    if leave_kind(c, toks[1][1], True, "ecm::do_curve") != "unit":
+        raise ExtractError("ecm::do_curve: the poll does not return from the curve")
+    # nothing expensive before the entry test: only the seed assertion (and hooks, stripped)
+    head = c[1:c.index("if", 1)]
+    if not re.fullmatch(r"\s*assert!\(seed >= 2\);\s*", head):
+        raise ExtractError("ecm::do_curve: statements before the entry test")
+    # every `return` that is not `return None` is preceded by `done.store(true, ..);`, and every store is followed by such a return
+    rets = [m for m in re.finditer(r"\breturn\b\s*([^;]*);", c)]
+    found_exits = []
+    for m in rets:
+        if m.group(1).strip() == "None":
+            continue
+        before = c[:m.start()].rstrip()
+        if not re.search(r"done\s*\.\s*store\(\s*true\s*,[^;]*\)\s*;$", before):
+            raise ExtractError("ecm::do_curve: a factor is returned without setting the found-factor flag just before")
+        found_exits.append(["add", "publish"])
+    if len(found_exits) != kinds.count("publish") or not found_exits:
+        raise ExtractError("ecm::do_curve: a `done.store(true)` that is not followed by the return of a factor")
+    if not re.search(r";\s*None\s*\}$", c.rstrip()) and not re.search(r"\}\s*None\s*\}$", c.rstrip()):
+        raise ExtractError("ecm::do_curve: the closure does not end with `None`")
+    if any(x != found_exits[0] for x in found_exits):
+        raise ExtractError("ecm::do_curve: found-factor exits differ")
+    # classification of every use of `done` in ecm()
+    uses = []
+    for m in USE.finditer(efn):
+        after, before = efn[m.end():], efn[:m.start()]
+        if re.search(r"let\s+$", before) and re.match(r"\s*=\s*AtomicBool::new\(false\)\s*;", after):
+            uses.append("decl")
+        elif re.match(r"\s*\.\s*load\s*\(", after):
+            reacts(efn, m.start(), "ecm(): read of the found-factor flag")
+            uses.append("exitCond")
+        elif re.match(r"\s*\.\s*store\s*\(\s*true\b", after):
+            uses.append("setTrue")
+        else:
+            uses.append("other")
+    rest = efn[:cb] + efn[ce:]
+    if tokens(rest, {}, "ecm() outside do_curve"):
+        raise ExtractError("ecm(): protocol actions outside the do_curve closure")
+    if not re.search(r"for s in seeds \{\s*if let Some\(res\) = do_curve\(s\) \{\s*return Some\(res\);\s*\}\s*\}", rest):
+        raise ExtractError("ecm(): the sequential loop does not return at the first curve that reports a factor")
+    if not re.search(r"for r in results \{\s*if r\.is_some\(\) \{\s*return r;\s*\}\s*\}", rest):
+        raise ExtractError("ecm(): the pool branch does not return the first reported factor in seed order")
+    return ["check", "poll"], found_exits[0], uses
+
+
 FIN = {}
 
 
@@ -227,6 +422,37 @@ def run():
        not re.search(r"for s in seeds \{\s*if let Some\(res\) = do_curve\(s\)", rest):
         raise ExtractError("ecm(): the two loops over the seeds no longer have the known form")
     ecm_shape = (ecm_unit, [], [])
+    # ---- classgroup.rs: same worker structure as siqs (sieve_a units), its own store
+    cg = src("src/classgroup.rs")
+    FIN = {}
+    cg_adder(cg, "classgroup")
+    cunit = unit_shape(find_fn(cg, "sieve_a"), "siqs_sieve_poly", {}, "classgroup::sieve_a")
+    CG_PATS = (r"if let Some\(pool\) = tpool\.as_ref\(\) \{", r"\.par_iter\(\)\s*\.for_each\(\s*\|[^|]*\|\s*\{", r"\bfor a_int in a_ints \{")
+    cg_mt, cg_st = driver_shapes(find_fn(cg, "classgroup"), *CG_PATS, "sieve_a", cunit, "classgroup()")
+    cg_clo, cg_loop, cg_tail = driver_regions(find_fn(cg, "classgroup"), *CG_PATS, "classgroup()")
+    # after both branches: a last poll; an aborted computation returns None (never a group built from an incomplete store)
+    if not re.match(r"\s*if\s+prefs\s*\.\s*abort\(\)\s*\{\s*return\s+None\s*;\s*\}", cg_tail):
+        raise ExtractError("classgroup(): the poll after the sieve (`if prefs.abort() { return None; }`) is not of the known form")
+    if len([m for m in TOK.finditer(cg_tail) if m.lastgroup in ("poll", "check", "publish")]) != 1:
+        raise ExtractError("classgroup(): protocol actions after the sieve other than the final poll")
+    # ---- how a true poll leaves: the unit only (closure `return`: the next unit polls again) or the whole loop
+    SIQS_PATS = (r"if let Some\(pool\) = tpool\.as_ref\(\) \{", r"\.par_iter\(\)\s*\.for_each\(\s*\|[^|]*\|\s*\{", r"\bfor a_int in a_ints \{")
+    MPQS_PATS = (r"if let Some\(pool\) = tpool \{", r"\.into_par_iter\(\)\s*\.for_each\(\s*\|[^|]*\|\s*\{", r"\bfor blkno in 0\.\. \{")
+    s_clo, s_loop, _ = driver_regions(find_fn(siqs, "siqs"), *SIQS_PATS, "siqs()")
+    m_clo, m_loop, _ = driver_regions(mfn_own, *MPQS_PATS, "mpqs()")
+    leaves = [("siqs-mt", poll_leave(s_clo, True, "siqs() worker closure")), ("siqs-st", poll_leave(s_loop, False, "siqs() sequential loop")),
+              ("mpqs-mt", poll_leave(m_clo, True, "mpqs() worker closure")), ("mpqs-st", poll_leave(m_loop, False, "mpqs() sequential loop")),
+              ("cg-mt", poll_leave(cg_clo, True, "classgroup() worker closure")), ("cg-st", poll_leave(cg_loop, False, "classgroup() sequential loop")),
+              ("qs-mt", "loop"), ("qs-st", "loop"), ("ecm", "unit")]
+    # ---- classical QS
+    qsrc = src("src/qsieve.rs")
+    qs_mt, qs_st = qsieve_shapes(qsrc)
+    # ---- ecm, second reading: entry / found-factor exit / uses of the flag
+    e_entry, e_found, e_uses = ecm_unit_read(ecm)
+    ecm_unit_shape = (e_entry, e_found, [])
+    kl = lambda ks: "[" + ", ".join("K." + k for k in ks) + "]"
+    fork = lambda name, f, doc: (f"/-- {doc} -/\ndef {name} : ForkShape :=\n  {{ forked := {'true' if f[0] else 'false'}, "
+                                 f"arms := [{', '.join(kl(a) for a in f[1])}], after := {kl(f[2])} }}\n")
     body = ("namespace Ymq.Gen.SchedShape\n\n"
             "/-- kinds of protocol actions found in the source -/\n"
             "inductive K | poll | check | add | publish\n  deriving DecidableEq, Repr\n\n"
@@ -237,11 +463,28 @@ def run():
             + lean_shape("mpqsMt", mpqs_mt, "mpqs.rs, thread pool: the into_par_iter closure over block numbers, around process_poly_block") + "\n"
             + lean_shape("mpqsSt", mpqs_st, "mpqs.rs, sequential: the `for blkno in 0..` loop, around process_poly_block") + "\n"
             + lean_shape("ecmCurve", ecm_shape, "ecm.rs: one curve (closure do_curve), mapped over the seeds by both branches; no shared store") + "\n"
+            + lean_shape("cgMt", cg_mt, "classgroup.rs, thread pool: the par_iter closure over the A values, around sieve_a") + "\n"
+            + lean_shape("cgSt", cg_st, "classgroup.rs, sequential: the `for a_int in a_ints` loop, around sieve_a") + "\n"
+            + lean_shape("ecmUnit", ecm_unit_shape, "ecm.rs, one curve read as a unit: entry test (`pre`), then, only for a curve that reports a factor, "
+                         "the report and `done.store(true)` (`body`, run once for such a curve and not at all otherwise)") + "\n"
             "def all : List (String × Shape) :=\n"
-            "  [(\"siqs-mt\", siqsMt), (\"siqs-st\", siqsSt), (\"mpqs-mt\", mpqsMt), (\"mpqs-st\", mpqsSt)]\n\n"
+            "  [(\"siqs-mt\", siqsMt), (\"siqs-st\", siqsSt), (\"mpqs-mt\", mpqsMt), (\"mpqs-st\", mpqsSt), (\"cg-mt\", cgMt), (\"cg-st\", cgSt)]\n\n"
+            "/-- classical QS, one large block pair: the arms (forward / backward block sieve; protocol actions per small block), run as a\n"
+            "fork-join (`forked`) or one after the other, then `after` in the coordinating thread -/\n"
+            "structure ForkShape where\n  forked : Bool\n  arms : List (List K)\n  after : List K\n  deriving Repr\n\n"
+            + fork("qsMtFork", qs_mt, "qsieve.rs with a pool: rayon::join(do_sieve_fwd, do_sieve_bck), then poll, then the completion test on the store") + "\n"
+            + fork("qsStFork", qs_st, "qsieve.rs without a pool: do_sieve_fwd(); do_sieve_bck(); then poll, then the completion test on the store") + "\n"
+            "/-- what a poll answered `true` leaves: `true` = the whole unit loop (`break`, or `return` of the driver), `false` = the unit only\n"
+            "(`return` of the per-unit closure: the iteration goes on and every later unit polls again) -/\n"
+            "def leavesLoop : List (String × Bool) :=\n  ["
+            + ", ".join(f"(\"{n}\", {'true' if k == 'loop' else 'false'})" for n, k in leaves) + "]\n\n"
+            "/-- uses of the found-factor flag `done` inside ecm() -/\n"
+            "inductive Use | decl | exitCond | setTrue | other\n  deriving DecidableEq, Repr\n\n"
+            "def ecmDoneUses : List Use :=\n  [" + ", ".join("Use." + u for u in e_uses) + "]\n\n"
             "end Ymq.Gen.SchedShape\n")
-    write_gen("SchedShape", body, ["src/siqs.rs", "src/mpqs.rs", "src/ecm.rs"])
-    return f"siqs-mt={siqs_mt} siqs-st={siqs_st} mpqs-mt={mpqs_mt} mpqs-st={mpqs_st} ecm={ecm_shape}"
+    write_gen("SchedShape", body, ["src/siqs.rs", "src/mpqs.rs", "src/ecm.rs", "src/classgroup.rs", "src/qsieve.rs"])
+    return (f"siqs-mt={siqs_mt} siqs-st={siqs_st} mpqs-mt={mpqs_mt} mpqs-st={mpqs_st} ecm={ecm_shape} cg-mt={cg_mt} cg-st={cg_st} "
+            f"qs-mt={qs_mt} qs-st={qs_st} ecm-unit={ecm_unit_shape} leaves={leaves} done-uses={e_uses}")
 
 
 if __name__ == "__main__":
